@@ -35,6 +35,9 @@ QUICK = [
     _c('uncoupled_orderbook', 'uncoupled', dict(T=4, orderbook=((0, 2, 2.0), (2, 3, -1.5), (3, 4, 1.0))), '2h'),
     _c('uncoupled_take_in_interval', 'uncoupled', dict(T=4, take=(2, 4)), '2h'),
     _c('orderbook_last_trailing', 'orderbook', dict(T=4, storage=False, ob_last=True, orders=((0, 1, 2.0), (2, 4, -1.5), (3, 4, 1.0))), '2h'),
+    # calendar-aware interval boundaries: a 23-hour day in a zone-aware grid, a month boundary
+    _c('uncoupled_dst_day_split_by_day', 'uncoupled', dict(T=4, freq=('8h', '2021-03-28 00:00', '2021-03-29 09:00', 'CET'), wacc=True), 'd'),
+    _c('uncoupled_month_boundary', 'uncoupled', dict(T=4, freq=('d', '2021-01-30', '2021-02-03', None), unit='d', wacc=True), 'MS'),
     _c('storage_start_eq_end', 'contract_storage', dict(T=4, freq='12h', storage_kw=dict(start_eq_end=True)), 'd', True),
     _c('two_node_storage_wacc', 'two_node', dict(T=4, freq='12h', wacc=True, storage_kw=dict(start_eq_end=True)), 'd', True),
 ]
